@@ -35,7 +35,10 @@ PROFILES = (
 )
 
 VALUE_FORMS = ("bare", "empty", "plain", "untyped-variable", "typed-variable", "composed-variable",
-               "empty-variable")
+               "empty-variable",
+               # the value has already passed the first variable of the chain (built by the check from
+               # that variable's own context)
+               "as-first")
 
 
 def value(form):
